@@ -125,7 +125,12 @@ impl Transformer {
                     };
                 }
             }
-            Expression::FunctionCall { args, .. } => {
+            Expression::FunctionCall { callable, args, .. } => {
+                // The callee can be an arbitrary expression (e.g. a conditional) that contains
+                // unit identifiers. A plain identifier is a function name and is left alone.
+                if !matches!(**callable, Expression::Identifier(..)) {
+                    self.transform_expression(callable);
+                }
                 for arg in args {
                     self.transform_expression(arg);
                 }
